@@ -169,14 +169,15 @@ pub fn noise_strategy() -> impl Strategy<Value = JaxNoise> {
 /// Strategy over (facts, path): free-form facts through the Builder,
 /// standard-flavour facts through every path.
 pub fn ont_case_strategy(max_terms: usize, max_recs: usize, rich_names: bool) -> BoxedStrategy<OntCase> {
-    let free = GenCfg::small().terms(1, max_terms).recs(max_recs);
+    let free = GenCfg::small().terms(1, max_terms).recs(max_recs).bulk();
     let names = if rich_names { NameMode::Capped } else { NameMode::Plain };
     let std_cfg = GenCfg::small()
         .terms(2, max_terms)
         .recs(max_recs)
         .standard()
         .with_flags(true)
-        .names(names);
+        .names(names)
+        .bulk();
     let free_s = gen::facts(free).prop_map(|facts| OntCase {
         facts,
         path: PathSel::Builder,
